@@ -258,6 +258,10 @@ func (rn *runner) waitIndexers() *simcore.Violation {
 		}
 		time.Sleep(5 * time.Second) // virtual
 	}
+	if rn.elementless {
+		return rn.keyed("indexer-never-finishes", "indexer-wedged-by-elementless-history", true,
+			"the trienode history indexer never finishes its initial run: a flattened transition changed nothing but the account trie's root node, its history has no index elements, batchIndexer.finish returns at pending == 0 without storing the index metadata, so checkDone() never sees the target reached")
+	}
 	if rn.recoverWhileIndexing {
 		return rn.keyed("indexer-never-finishes", "indexer-shorten-during-initial-indexing", true,
 			"the history indexer never finishes its initial run after a Recover that happened while it was running: when the reverted history had been indexed already, indexIniter.run only lowers its target; the index metadata stays one ahead of the target, checkDone() can never become true again and the stale index entries of the reverted history remain")
